@@ -180,14 +180,13 @@ theorem C07_sibling_restart_count_bumped :
     let f2 := (step f1 (.fail 0 .A)).1
     (f1.cs.map (·.rc)) = [1, 1] ∧ (f2.cs.map (·.rc)) = [2, 2] ∧ (f2.cs.map (·.pre)) = [3, 3] := by decide
 
-/-- finding C07-F3 (model-side witness; replayed on the real code by corpus/C07): a one-for-all restart whose
-    first attempt fails behind the embedded shutdown of a running sibling (its PreStart errors 5 times, which
-    exhausts `init`) and whose retry succeeds leaves that sibling running OUTSIDE the tree, with a restart
-    count that was not bumped (1 instead of 2) -/
-theorem C07_retried_restart_loses_parent :
+/-- regression statement for fix 07658af (formerly finding C07-F3): a one-for-all restart whose first attempt
+    fails behind the embedded shutdown of a running sibling (its PreStart errors 5 times, which exhausts `init`)
+    and whose retry succeeds keeps that sibling registered under its parent, with restart count old + 1 -/
+theorem C07_retried_restart_keeps_parent :
     let opts := [Opt.strategy .oneForAll, .directive tyA dRestart, .retry 2 2]
     let f := (run (Family.init opts 2) [.fail 0 .A, .failPre 1 5, .fail 0 .A]).getLast?.map (·.1)
-    f.map (fun f => f.cs.map (fun c => (c.reg, c.alive, c.pre, c.rc))) = some [(true, true, 3, 2), (false, true, 8, 1)] := by
+    f.map (fun f => f.cs.map (fun c => (c.reg, c.alive, c.pre, c.rc))) = some [(true, true, 3, 2), (true, true, 8, 2)] := by
   decide
 
 /-- the current code does not satisfy the text -/
